@@ -6,7 +6,7 @@ import kf_replay
 
 def native(workdir):
     """bounded search on the REAL crates through parse -> reconcile -> generate_types of all six back ends: struct fields and struct-variant
-    fields (C01) / unit and adjacently tagged enums incl. tag and content keys (C02) with 6 conventional field names (a raw identifier
+    fields (C01) / unit and adjacently tagged enums incl. tag and content keys (C02) with the container rule in the first or in a second serde attribute, 6 conventional field names (a raw identifier
     among them) resp. 4 UpperCamelCase variants, every rename_all rule and none, explicit serde(rename) incl. a dashed key; every key
     serde_derive's own case.rs computes must occur in the output as a whole token (Scala: only keys usable as identifiers;
     Kotlin/Scala carry no tag key)."""
